@@ -644,7 +644,9 @@ def run(scn):
 
     hs_iv = outs.intervals(_is_hs, n)
     chirp_iv = outs.intervals(lambda o: o[3] == 2, n)
-    txv_iv = outs.intervals(lambda o: o[5] == 1, n)
+    # the device's chirp K: it transmits while the PHY is in chirp mode (a transmission in any other operating mode is an
+    # ordinary packet to the PHY, not a chirp)
+    txv_iv = outs.intervals(lambda o: o[5] == 1 and o[3] == 2, n)
     susp_iv = outs.intervals(lambda o: o[1] == 1, n)
     reset_iv = outs.intervals(lambda o: o[0] == 1, n)
     restr_iv = restr.intervals(lambda v: v == 1, n)
